@@ -121,7 +121,8 @@ def trim(obj, limit=300):
 
 def build(variant="san", quiet=True):
     t = time.time()
-    cmd = ["make", "-s", "-f", os.path.join(VERIF, "sim", "Makefile"), "-j16", "V=" + variant, "R=" + REPO]
+    cmd = ["make", "-s", "-f", os.path.join(VERIF, "sim", "Makefile"), "-j16", "V=" + variant, "R=" + REPO,
+           "O=" + os.path.join(CACHE, variant)]
     r = subprocess.run(cmd, stdout=subprocess.PIPE, stderr=subprocess.STDOUT, text=True)
     if r.returncode != 0:
         sys.stdout.write(r.stdout[-6000:])
